@@ -40,11 +40,22 @@ def _num(x):
 
 
 def match_rows(want, got, time_keys, tol_fn, rel_keys=(), skip=()):
-    """Multiset match of row dicts: exact keys form the bucket; time keys are
-    paired in sorted order within a bucket with tolerance.  Returns None or msg."""
+    """Multiset match of row dicts: exact keys (and rel_keys rounded to 8
+    significant digits) form the bucket; within a bucket rows are matched
+    one-to-one (bipartite matching) so that every time key is within tolerance
+    and every rel key within 1e-9.  Returns None or a message."""
     def bucket(r):
-        return tuple((k, (int(v) if isinstance(v, (bool, int)) or (isinstance(v, float) and v.is_integer() and k not in rel_keys) else v))
-                     for k, v in sorted(r.items()) if k not in time_keys and k not in rel_keys and k not in skip)
+        out = []
+        for k, v in sorted(r.items()):
+            if k in time_keys or k in skip:
+                continue
+            if k in rel_keys:
+                out.append((k, float("%.8g" % float(v))))
+            elif isinstance(v, (bool, int)) or (isinstance(v, float) and v.is_integer()):
+                out.append((k, int(v)))
+            else:
+                out.append((k, v))
+        return tuple(out)
 
     bw, bg = {}, {}
     for r in want:
@@ -55,15 +66,32 @@ def match_rows(want, got, time_keys, tol_fn, rel_keys=(), skip=()):
         onlyw = [dict(k) for k in bw if len(bw[k]) != len(bg.get(k, []))][:2]
         onlyg = [dict(k) for k in bg if len(bg[k]) != len(bw.get(k, []))][:2]
         return f"objects differ: expected-only {onlyw}, got-only {onlyg}"
-    keyf = lambda r: tuple(float(r[k]) for k in time_keys) + tuple(float(r[k]) for k in rel_keys)
+
+    def ok(w, g):
+        return all(tol_fn(float(w[k]), float(g[k])) for k in time_keys) and all(rel(w[k], g[k]) for k in rel_keys)
+
+    keyf = lambda r: tuple(float(r[k]) for k in time_keys)
     for b in bw:
-        for w, g in zip(sorted(bw[b], key=keyf), sorted(bg[b], key=keyf)):
-            for k in time_keys:
-                if not tol_fn(float(w[k]), float(g[k])):
-                    return f"{k}: expected {w[k]}, got {g[k]} (object {dict(b)})"
-            for k in rel_keys:
-                if not rel(w[k], g[k]):
-                    return f"{k}: expected {w[k]}, got {g[k]} (object {dict(b)})"
+        W, G = sorted(bw[b], key=keyf), sorted(bg[b], key=keyf)
+        if all(ok(w, g) for w, g in zip(W, G)):
+            continue
+        # general case: augmenting-path bipartite matching
+        match_g = [-1] * len(G)
+
+        def aug(i, seen):
+            for j in range(len(G)):
+                if j not in seen and ok(W[i], G[j]):
+                    seen.add(j)
+                    if match_g[j] < 0 or aug(match_g[j], seen):
+                        match_g[j] = i
+                        return True
+            return False
+
+        for i in range(len(W)):
+            if not aug(i, set()):
+                w = W[i]
+                near = min(G, key=lambda g: sum(abs(float(g[k]) - float(w[k])) for k in time_keys)) if time_keys else G[0]
+                return "; ".join(f"{k}: expected {w[k]}, nearest got {near[k]}" for k in list(time_keys) + list(rel_keys)) + f" (object {dict(b)})"
     return None
 
 
